@@ -78,6 +78,23 @@ mod proofs {
         (it, cols, len, px)
     }
 
+    /// The step lemmas assume that a full row always fits into an empty block (the code says
+    /// `expect("never")` there) and C20 requires a row capacity of at least two pixels.
+    //@ props=C03,C20,C02 cfg=incrate inst="capacity constants of src/batch.rs (real values)" bounds="constants" timeout=600 mem=4
+    #[kani::proof]
+    fn caps_consistent() {
+        assert!(MAX_ROW_SIZE <= MAX_BLOCK_SIZE, "[C03][C02] a full pixel row fits into an empty block (otherwise draw_iter panics on a long run)");
+        assert!(MAX_ROW_SIZE >= 2, "[C20] the row capacity is at least two pixels");
+        // the first row of a block is taken over whole, at the real capacities, with concrete data
+        let mut colors: RowColors<Rgb565> = RowColors::new();
+        for i in 0..MAX_ROW_SIZE {
+            let _ = colors.push(Rgb565::from(RawU16::new(i as u16)));
+        }
+        let mut b: BlockColors<Rgb565> = BlockColors::new();
+        assert!(b.extend_from_slice(&colors).is_ok(), "[C03][C02] extend of an empty block by a full row succeeds");
+        kani::cover!(b.len() == MAX_ROW_SIZE, "cover: reached");
+    }
+
     /// C03/C08: sequence preservation and well-formedness of one RowIterator step.
     //@ props=C03,C08,C02,C01 cfg=incrate_small,incrate inst="RowIterator::next, one step from an arbitrary valid state" bounds="source yields <= 2 symbolic pixels then None; every colour symbolic; capacity 4 (H4) and 50 (real); symbolic element index" timeout=2400 mem=8
     #[kani::proof]
